@@ -26,11 +26,14 @@ JSON_EXTRA = [31, 32, 33, 34, 35]   # documents differing only in the sign of a 
 JSON_REORDERED = [15, 16, 17, 18]     # pool entries whose second source text inserts the keys in another order
 
 F32 = ["00000000", "80000000", "3f800000", "bf800000", "00000001", "80000001", "007fffff", "00800000", "7f7fffff",
-       "7f800000", "ff800000", "7fc00000", "ffc00000", "7fc00001", "ffc00001", "7f800001", "7fffffff", "ffffffff", "40000000"]
+       "7f800000", "ff800000", "7fc00000", "ffc00000", "7fc00001", "ffc00001", "7f800001", "7fffffff", "ffffffff", "40000000",
+       # neighbours (one unit in the last place apart): equality is exact, not approximate
+       "3f800001", "3f7fffff", "3e99999a", "3e99999b"]
 F64 = ["0000000000000000", "8000000000000000", "3ff0000000000000", "bff0000000000000", "0000000000000001",
        "8000000000000001", "000fffffffffffff", "0008000000000000", "0010000000000000", "7fefffffffffffff",
        "7ff0000000000000", "fff0000000000000", "7ff8000000000000", "fff8000000000000", "7ff8000000000001",
-       "7ff0000000000001", "7fffffffffffffff", "ffffffffffffffff", "4000000000000000"]
+       "7ff0000000000001", "7fffffffffffffff", "ffffffffffffffff", "4000000000000000",
+       "3ff0000000000001", "3fefffffffffffff", "3fd3333333333333", "3fd3333333333334"]
 
 OPAQUE = {
     "ChronoDate": ["0", "1", "19000"],
